@@ -25,8 +25,9 @@ RULE = ("(a) generated point clouds and meshes with quantized float positions / 
         "Correspondence: the model decodes the same streams of every method under the same three skip sets.")
 THEOREM_BACKED = ('DracoProps.C10 (sequential decoders, every bitstream version, every stream): skip_of_normal / '
                   'skip_unaffected / skip_mono / skip_equiv / skip_accept_iff_legacy / portable_readback, '
-                  'skip_of_normal_with; DracoProps.C10Kd (kd-tree body): kd_skipGeomOKU, kd_skipGeomOK_false (the kd-tree '
-                  'decoder exposes DT_UINT32), kd_skip_accept_iff, skip_of_normal_kd, pointcloud_kd_skip_roundtrip; '
+                  'skip_of_normal_with; DracoProps.C10Kd (kd-tree body, every version): kd_skipGeomOKU, kd_skipGeomOK_false'
+                  ' (the kd-tree decoder exposes DT_UINT32), kd_skip_legacy / kd_skip_legacy_plain (< 2.3: the option has '
+                  'no effect, no transform data), kd_skip_accept_iff, skip_of_normal_kd, pointcloud_kd_skip_roundtrip; '
                   'DracoProps.C10Eb (Edgebreaker body, bitstream >= 2.0): eb_skip_of_normal, ebGuarded_skipGeomOK, '
                   'skip_of_normal_v2 (the COMPLETE decoder on every stream whose header announces a version >= 2.0), '
                   'skip_of_normal_eb_stream (see evidence.coverage.theorems)')
